@@ -169,7 +169,7 @@ func term(in Input, o Obs) string {
 	pv := map[string]string{"map_db": "PVMapDb", "map_field": "PVMapField", "struct": "PVStruct", "": "PVMapDb"}[in.PayVia]
 	op := lib.App("mk_op", kind, gTy(in.Type), gShape(in.Shape), gRecs(in.Recs), assocs,
 		lib.Bool(in.Skip), txm, gInts(in.Fails), gInts(in.Sets), setkey, lib.Z(in.Pay), pv, lib.Z(in.Limit), lib.ListOf(in.Seed, gRow),
-		lib.App("mk_opts", lib.Bool(in.SetAll), lib.Z(int64(in.DelAssoc)), lib.Bool(in.Preload)))
+		lib.App("mk_opts", lib.Bool(in.SetAll), lib.Z(int64(in.DelAssoc)), lib.Bool(in.Preload), lib.Bool(in.SetAfter)))
 	mem := []string{}
 	for _, t := range loadedTags(in, o) {
 		mem = append(mem, lib.Z(t))
@@ -603,7 +603,7 @@ func main() {
 
 	g := &gen{r: lib.NewRng(a.Seed)}
 	r := g.r
-	budget := 1330
+	budget := 1420
 	if a.Tier == "thorough" {
 		budget = 5000
 	}
@@ -651,6 +651,11 @@ func main() {
 		}
 		if len(in.Fails) > 0 {
 			in.FailKind = lib.Pick(r, kinds)
+		}
+		// after-hooks going through the statement (not for Save of a struct: its upsert fallback would
+		// store what an AfterUpdate hook set, and not for batches / the all-records form)
+		if len(in.Sets) > 0 && !in.SetAll && in.Op != "create_in_batches" && !(in.Op == "save" && isStruct(in.Shape)) && r.Chance(1, 2) {
+			in.SetAfter = true
 		}
 		add(kind, in)
 	}
@@ -758,6 +763,32 @@ func main() {
 					sort.Ints(in.Sets)
 					add("setcolumn", in)
 				}
+			}
+		}
+	}
+	// after-hooks that go through the statement (Changed + SetColumn) on models that also have before-hooks,
+	// for slice arguments (Create / Save / Delete) and slice Models (Update / Updates), at every invocation
+	for _, sh := range []string{"ptr_slice_val", "ptr_slice_ptr", "slice_ptr", "ptr_array_val"} {
+		for _, sc := range []Input{
+			{Op: "create", Recs: []RecIn{{Tag: 101, Val: 1}, {Tag: 102, Val: 2}}},
+			{Op: "save", Recs: []RecIn{{ID: 1, Tag: 1, Val: 11}, {Tag: 102, Val: 2}}, Seed: g.seed(2)},
+			{Op: "updates", Recs: []RecIn{{ID: 1, Tag: 1, Val: 10}, {ID: 2, Tag: 2, Val: 20}}, Seed: g.seed(3), Pay: 67, PayVia: "struct"},
+			{Op: "update", Recs: []RecIn{{ID: 1, Tag: 1, Val: 10}, {ID: 2, Tag: 2, Val: 20}}, Seed: g.seed(3), Pay: 68, PayVia: "map_db"},
+			{Op: "delete", Recs: []RecIn{{ID: 1, Tag: 1, Val: 10}, {ID: 3, Tag: 3, Val: 30}}, Seed: g.seed(3)},
+		} {
+			base := sc
+			base.Type, base.Shape, base.TxMode, base.SetKey, base.SetAfter = lib.Pick(r, []string{"T1", "T1", "T2"}), sh, "default", "db", true
+			if base.PayVia == "" {
+				base.PayVia = "map_db"
+			}
+			n := len(runOne(base).Log)
+			for k := 0; k < n; k++ {
+				if a.Tier != "thorough" && k%2 == 0 && k+1 < n {
+					continue
+				}
+				in := base
+				in.Sets = []int{k}
+				add("setafter", in)
 			}
 		}
 	}
